@@ -356,6 +356,24 @@ def c_ortho_trunc(pool, rng, t):
     return 'ortho_trunc', [], False
 
 
+def c_imul(pool, rng, t):
+    """augmented assignment `x *= c` on a live object (what normalisation code writes): whether the class implements it in place or
+    Python falls back to `x = x * c`, no OTHER live object may change"""
+    if is_zero(t):
+        return None
+    c = float(rng.uniform(0.5, 2.0)) * (1 if rng.random() < 0.7 else -1)
+    x = t
+    with probe.oracle():
+        pass
+    try:
+        x *= c
+    except Exception as e:  # noqa
+        core.ctx().exception('TT.__imul__', e, prop=P)
+        return None
+    core.ctx().ran('TT.__imul__', prop=P)
+    return 'imul', [x], False
+
+
 def c_ortho_partial(pool, rng, t):
     if t.order < 2:
         return None
@@ -422,7 +440,7 @@ def c_svd_overwrite(pool, rng, t):
     return 'pinv_overwrite', [r] if ok else [], True
 
 
-CONSUMERS = [c_ortho_left, c_ortho_right, c_ortho, c_ortho_trunc, c_ortho_partial, c_unary_overwrite, c_tensordot_overwrite,
+CONSUMERS = [c_ortho_left, c_ortho_right, c_ortho, c_ortho_trunc, c_ortho_partial, c_imul, c_unary_overwrite, c_tensordot_overwrite,
              c_concatenate_overwrite, c_rank_tensordot_overwrite, c_svd_overwrite]
 
 
